@@ -466,7 +466,7 @@ func (g *gen) renderJSON(v *V) string {
 			if i > 0 {
 				b.WriteString("," + g.jws())
 			}
-			b.WriteString(g.renderJSON(x) + g.pick("", "", " "))
+			b.WriteString(g.renderJSON(x) + g.pick("", "", " ", "", "", " ", "", "", " ", "\n", " \n "))
 		}
 		b.WriteString("]")
 		return b.String()
@@ -477,12 +477,84 @@ func (g *gen) renderJSON(v *V) string {
 			if i > 0 {
 				b.WriteString("," + g.jws())
 			}
-			b.WriteString(g.jsonString(m.K) + g.pick("", " ") + ":" + g.jws() + g.renderJSON(m.V) + g.pick("", "", " "))
+			b.WriteString(g.jsonString(m.K) + g.pick("", " ", "", " ", "", " ", "\n") + ":" + g.jws() + g.renderJSON(m.V) + g.pick("", "", " ", "", "", " ", "", " ", "\r\n"))
 		}
 		b.WriteString("}")
 		return b.String()
 	}
 	return "?"
+}
+
+// plainReasons: the documented reasons for which JSONx rejects a text that is
+// valid RFC 8259 JSON (Props/C09.v C09_plain_json_accepted): a line end
+// between a value or key and the following , : ] }; a string escape that Go
+// does not have (\/ and surrogate \u escapes); a float literal outside the
+// range of strconv.ParseFloat.  Computed from the text alone.
+func plainReasons(txt []byte) []string {
+	rs := map[string]bool{}
+	n := len(txt)
+	afterValue, sawNL := false, false
+	for i := 0; i < n; {
+		c := txt[i]
+		switch {
+		case c == ' ' || c == '\t' || c == '\r':
+			i++
+		case c == '\n':
+			if afterValue {
+				sawNL = true
+			}
+			i++
+		case c == '"':
+			j := i + 1
+			for j < n && txt[j] != '"' {
+				if txt[j] == '\\' && j+1 < n {
+					switch txt[j+1] {
+					case '/':
+						rs["escape-slash"] = true
+					case 'u':
+						if j+5 < n {
+							if v, err := strconv.ParseUint(string(txt[j+2:j+6]), 16, 32); err == nil && v >= 0xD800 && v <= 0xDFFF {
+								rs["escape-surrogate"] = true
+							}
+						}
+					}
+					j += 2
+				} else {
+					j++
+				}
+			}
+			i = j + 1
+			afterValue, sawNL = true, false
+		case c == ',' || c == ':' || c == ']' || c == '}':
+			if sawNL {
+				rs["newline-after-value"] = true
+			}
+			afterValue, sawNL = c == ']' || c == '}', false
+			i++
+		case c == '[' || c == '{':
+			afterValue, sawNL = false, false
+			i++
+		default:
+			j := i
+			for j < n && !strings.ContainsRune(" \t\r\n,:]}", rune(txt[j])) {
+				j++
+			}
+			tok := string(txt[i:j])
+			if (tok[0] == '-' || tok[0] >= '0' && tok[0] <= '9') && strings.ContainsAny(tok, ".eE") {
+				if _, err := strconv.ParseFloat(strings.TrimPrefix(tok, "-"), 64); err != nil {
+					rs["float-range"] = true
+				}
+			}
+			i = j
+			afterValue, sawNL = true, false
+		}
+	}
+	out := []string{}
+	for r := range rs {
+		out = append(out, r)
+	}
+	sort.Strings(out)
+	return out
 }
 
 // ---------------------------------------------------------------- Go values for Marshal (C07)
@@ -783,15 +855,15 @@ func genCases(mode string, seed uint64, n int) []Case {
 // to the parser's error state from the 21st error on decides whether the
 // recovery loops still make progress.
 var manyErrKinds = []string{
-	"1 {}\n",          // not a type name
-	"x [a b]\n",       // missing comma in a list
-	"x :\n",           // no operand
-	"x {1:2}\n",       // not an object entry
-	"x -\n",           // sign without number
-	"x {a:1} y\n",     // no separator after the value
-	"x \"\\z\"\n",     // lexing error in a string
-	"# \n",            // illegal character
-	"zz 1\n",          // unknown type (the decoder's own error list)
+	"1 {}\n",      // not a type name
+	"x [a b]\n",   // missing comma in a list
+	"x :\n",       // no operand
+	"x {1:2}\n",   // not an object entry
+	"x -\n",       // sign without number
+	"x {a:1} y\n", // no separator after the value
+	"x \"\\z\"\n", // lexing error in a string
+	"# \n",        // illegal character
+	"zz 1\n",      // unknown type (the decoder's own error list)
 	"thing { A: [a b] }\n",
 }
 
@@ -846,8 +918,17 @@ func genManyErrors(b *builder, n int) {
 				b.add("manyerr", "unmarshal", doc, nil)
 				b.add("manyerr", "tojson", doc, nil)
 				b.add("manyerr", "series", append([]byte("x "), doc...), withKnown)
+				b.add("manyerr", "stream", append([]byte("1 {a:2}\n"), doc...), nil)
 			}
 		}
+		// errors of the decoder's own list: unknown types, texts the struct types reject
+		for _, ent := range []string{"point {x:[]}\n", "build {zzz:1}\n", "nosuch 1\n", "string 1;"} {
+			b.add("manyerr", "tseries", []byte(strings.Repeat(ent, cnt)), func(c *Case) { c.Known = typedKnown })
+			b.add("manyerr", "tseries", []byte("point {x:1}\n"+strings.Repeat(ent, cnt)+"any {v:1}"), func(c *Case) { c.Known = typedKnown })
+		}
+		// many bad escapes (the lexer's capped list; no input is known that the lexer takes and strconv.Unquote rejects)
+		b.add("manyerr", "shell", []byte(strings.Repeat("\"\\x4\" ", cnt)), nil)
+		b.add("manyerr", "shell", []byte(strings.Repeat("\"\\400\" z ", cnt)), nil)
 		b.add("manyerr", "shell", []byte(strings.Repeat("\"\\z\" ", cnt)), nil)
 		b.add("manyerr", "shell", []byte(strings.Repeat("a\n", cnt)), nil)
 	}
@@ -868,6 +949,8 @@ func genC08(b *builder, n int) {
 		b.add("files", "file", []byte(d), withKnown)
 		b.add("files", "file", []byte(d[:len(d)/2]), withKnown)
 		b.add("docs", "raw", []byte(d), nil)
+		b.add("docs", "rawpos", []byte(d), nil)
+		b.add("docs", "rawpos", []byte(strings.ReplaceAll(d, "\n", "\r\n")), nil)
 		b.add("docs", "filtered", []byte(d), nil)
 		b.add("docs", "ptokens", []byte(d), nil)
 		b.add("docs", "series", []byte(d), withKnown)
@@ -921,7 +1004,7 @@ func genC08(b *builder, n int) {
 	// random longer sequences, bad UTF-8, mutated documents
 	for i := 0; i < n; i++ {
 		in := b.malformedBytes()
-		ops := []string{"series", "unmarshal", "tojson", "ptokens", "raw"}
+		ops := []string{"series", "unmarshal", "tojson", "ptokens", "raw", "rawpos"}
 		b.add("malformed", ops[i%len(ops)], in, withKnown)
 		if i%4 == 0 {
 			b.add("malformed", "utf8", in, nil)
@@ -938,6 +1021,24 @@ func genC08(b *builder, n int) {
 			b.add("cut", "unmarshal", txt[:g.r.Intn(len(txt))], nil)
 			b.add("cut", "series", append([]byte("x "), txt[:g.r.Intn(len(txt))]...), withKnown)
 		}
+	}
+	// positions
+	for _, s := range []string{"", "a", "\n", "a\n", "\n\na", "\"x\ny\"", "/* a\nb */ c", "`r\nr` 1", "é 中\n😀 x", "\xff\xfe a\n b", "a\r\nb", "# $\n %", "\t\ta", "1 {}\n1 {}\n", "//c", "//c\n", "a // c\n  b"} {
+		b.add("positions", "rawpos", []byte(s), nil)
+	}
+	for _, k := range manyErrCounts {
+		b.add("positions", "rawpos", []byte(strings.Repeat("# \n $", k)), nil)
+	}
+	for i := 0; i < n/6; i++ {
+		v := g.value(3)
+		b.add("positions", "rawpos", []byte(g.render(v)), nil)
+	}
+	// a Decoder used for several values; series with struct types
+	genMulti(b, n/8, true)
+	genTyped(b, n/8, true)
+	for _, d := range docs {
+		b.add("docs", "stream", []byte(d), nil)
+		b.add("docs", "tseries", []byte(d), func(c *Case) { c.Known = typedKnown })
 	}
 	// command lines
 	for _, s := range shellCorpus {
@@ -1008,12 +1109,28 @@ func genC09(b *builder, n int) {
 		if err != nil {
 			want = "E(generator: " + err.Error() + ")"
 		}
-		b.add("plainjson", "tojson", txt, func(c *Case) { c.Want = want })
+		rs := plainReasons(txt)
+		b.add("plainjson", "tojson", txt, func(c *Case) { c.Want = want; c.Reasons = rs; c.Plain = true })
 		if i%3 == 0 {
 			b.add("plainjson", "jsonparse", txt, nil)
 		}
 	}
+	for _, s := range []string{"[1e400]", "-1E999", "\"\\/\"", "\"\\ud83d\\ude00\"", "{\"a\"\n:1}", "[1\n]", "1\n", "{\"a\":1\n,\"b\":2}",
+		"[1,\n2]", "1E5", "-0", "[-0.0e-0]", "{\"a\":1,\"a\":2}", "{\"true\":null,\"null\":true}", "[\n]", "{\n}", "\n\n[\n1\n]", " {\"k\" : [ ] } \n",
+		"1.5E+3", "0e0", "[[],{}]\n\n", "\"\\u00e9\\n\\t\\\"\\\\\"", "\"\\ud800\"", "[1 ,2 ]", "{\"a\" :1 }", "\"\u2028\"", "123456789012345678901234567890", "-1e-400"} {
+		txt := []byte(s)
+		want, err := canonJSON(txt)
+		if err != nil {
+			continue
+		}
+		rs := plainReasons(txt)
+		b.add("plainjson", "tojson", txt, func(c *Case) { c.Want = want; c.Reasons = rs; c.Plain = true })
+		b.add("plainjson", "unmarshal", txt, func(c *Case) { c.Want = want; c.Reasons = rs; c.Plain = true })
+	}
 	g.badUTF8 = true
+	// several values from one Decoder; series decoded into struct types
+	genMulti(b, n/5, false)
+	genTyped(b, n/5, false)
 	// trailing content after a complete value must be reported
 	for i := 0; i < n/4; i++ {
 		v := g.value(2)
@@ -1049,7 +1166,7 @@ func genC07(b *builder, n int) {
 	g := b.g
 	fixed := []interface{}{1000000, 1e21, -1.5, uint64(1<<63 + 1), int64(-(1 << 53) - 1), 1e6, 1e-7, "é\n\"\\\x00\u2028😀", map[string]interface{}{"true": 1, "a b": []interface{}{}},
 		map[string]interface{}{"a": map[string]interface{}{"b": []interface{}{1.5, nil, map[string]interface{}{}}}}, []interface{}{}, map[string]interface{}{}, "", nil, true, 0.0, math.Copysign(0, -1),
-json.Number("1.7976931348623157e308"), []interface{}{[]interface{}{[]interface{}{[]interface{}{"deep"}}}}, map[string]interface{}{"null": nil, "x": 1}, map[string]interface{}{"é": 1}, map[string]interface{}{"": 1}}
+		json.Number("1.7976931348623157e308"), []interface{}{[]interface{}{[]interface{}{[]interface{}{"deep"}}}}, map[string]interface{}{"null": nil, "x": 1}, map[string]interface{}{"é": 1}, map[string]interface{}{"": 1}}
 	addPrint := func(stream string, v interface{}) {
 		tree, want, err := pvTree(v)
 		if err != nil {
@@ -1123,6 +1240,18 @@ json.Number("1.7976931348623157e308"), []interface{}{[]interface{}{[]interface{}
 			m[k] = g.goValue(1)
 		}
 		addPrint("keys", m)
+	}
+	// Go values of concrete types through Marshal -> Unmarshal into the same type
+	genGoValues(b, n/3, addPrint0)
+	// code point classes; all code points
+	genRunes(b, n, n >= 20000)
+	for _, r := range classRunes() {
+		if r%97 == 0 || r < 0x100 {
+			addPrint0("runes", "a"+string(r)+"b")
+			if r%2 == 0 {
+				addPrint0("runes", map[string]interface{}{string(r): 1, "k" + string(r): nil})
+			}
+		}
 	}
 	// the text Marshal prints must also go through the model's decoder
 	for i := 0; i < n/4; i++ {
